@@ -12,7 +12,9 @@ def gen_text(rnd):
 
 def gen_tree(rnd, depth, lists_only=False):
     r = rnd.random()
-    if depth <= 0 or (r < 0.45 and not lists_only): return ["text", gen_text(rnd)]
+    if depth <= 0 or (r < 0.45 and not lists_only):
+        if rnd.random() < 0.1: return ["entry", rnd.choice(["Title", "a longer title here"]), rnd.choice([None, "", "value", "a value of several words"])]
+        return ["text", gen_text(rnd)]
     if r < 0.5 and not lists_only: return ["sep", rnd.randint(1, 3)]
     if r < 0.58 and not lists_only: return ["center", gen_tree(rnd, depth - 1)]
     if r < 0.66 and not lists_only:
@@ -30,13 +32,26 @@ def gen_tree(rnd, depth, lists_only=False):
 def share_leaves(rnd, items):
     """now and then the application adds the very same leaf widget object to a container twice (e.g. one 'n/a' text in several cells)"""
     if len(items) >= 2 and rnd.random() < 0.12:
-        leaves = [j for j, x in enumerate(items) if x[0] in ("text", "checkbox", "sep")]
+        leaves = [j for j, x in enumerate(items) if x[0] in ("text", "entry", "checkbox", "sep")]
         if leaves:
             j = rnd.choice(leaves)
             later = [i for i in range(j + 1, len(items))]
             if later:
                 for i in rnd.sample(later, rnd.randint(1, min(2, len(later)))): items[i] = ["ref", j]
     return items
+
+
+def gen_column(rnd):
+    """a ColumnWidget: columns (width or None, widgets), spacing, and the widths it is rendered at in turn"""
+    def item():
+        r = rnd.random()
+        if r < 0.5: return ["text", gen_text(rnd)]
+        if r < 0.65: return ["entry", rnd.choice(["Title", "a longer title here", "t"]), rnd.choice([None, "", "value", "a value of several words"])]
+        if r < 0.75: return ["sep", rnd.randint(1, 2)]
+        return gen_tree(rnd, 1)
+    cols = [[rnd.choice([None, None, 0, 3, 8, 12, 20]), [item() for _ in range(rnd.choice([0, 1, 1, 2, 3]))]] for _ in range(rnd.randint(1, 4))]
+    w = rnd.choice(WIDTHS)
+    return {"op": "column", "cols": cols, "spacing": rnd.choice([0, 1, 1, 3]), "widths": rnd.choice([[w], [w, w], [w, rnd.choice(WIDTHS), w]])}
 
 
 def container_paths(spec, prefix=()):
